@@ -53,7 +53,7 @@ Theorem c13_setrequest_fold_left : forall env fo ko sch o t r t',
   unmarshal_setrequest env fo ko sch o t r = (t', SROk) ->
   t' = fold_left (upd_f env fo ko sch o) (map (jupd (sr_prefix r)) (sr_updates r))
          (fold_left (rep_f env fo ko sch o) (map (jupd (sr_prefix r)) (sr_replaces r))
-           (fold_left (del_f env ko sch o) (map (jelems (sr_prefix r)) (sr_deletes r)) t))
+           (fold_left (del_f env fo ko sch o) (map (jelems (sr_prefix r)) (sr_deletes r)) t))
   /\ joins_ok r.
 Proof. exact setrequest_fold_left. Qed.
 Print Assumptions c13_setrequest_fold_left.
@@ -112,8 +112,8 @@ Print Assumptions c13_notifs_are_requests_fold.
 (* the request of a notification: its deletes, then (atomic) DeleteNode at the prefix, then its updates *)
 Theorem c13_notif_request : forall env fo ko sch o n t,
   reference_set_o env fo ko sch o t (req_of_notif n) =
-  bind (fold_res (ref_delete env ko sch o (gp_of (n_prefix n))) (map gp_of (n_deletes n)) t) (fun t0 =>
-  bind (if n_atomic n then delete_node env ko (so_shadow o) sch t0 (n_prefix n) else Ok t0) (fun t1 =>
+  bind (fold_res (ref_delete env fo ko sch o (gp_of (n_prefix n))) (map gp_of (n_deletes n)) t) (fun t0 =>
+  bind (if n_atomic n then delete_node env fo ko (so_shadow o) sch t0 (n_prefix n) else Ok t0) (fun t1 =>
     fold_res (ref_update env fo ko sch o (gp_of (n_prefix n)))
              (map (fun u => (gp_of (fst u), snd u)) (n_updates n)) t1)).
 Proof. exact notif_request_reference. Qed.
@@ -123,7 +123,7 @@ Print Assumptions c13_notif_request.
 Theorem c13_atomic_replaces_prefix : forall env fo ko sch o n t t',
   n_atomic n = true -> n_deletes n = [] ->
   (unmarshal_notifs env fo ko sch o t [n] = (t', SROk) <->
-   exists t1, delete_node_st env ko (so_shadow o) sch t (n_prefix n) = (t1, Ok tt) /\
+   exists t1, delete_node_st env fo ko (so_shadow o) sch t (n_prefix n) = (t1, Ok tt) /\
               fold_res (ref_update env fo ko sch o (gp_of (n_prefix n)))
                        (map (fun u => (gp_of (fst u), snd u)) (n_updates n)) t1 = Ok t').
 Proof. exact atomic_notif_deletes_prefix_first. Qed.
@@ -159,7 +159,7 @@ Print Assumptions c13_spec_update.
    `sem`, the invariant, the guards. *)
 Theorem c13_refines_scalar : forall env fo ko sch o sem Inv dguard sguard,
   let obs := fun t => leaves env ko (so_shadow o) sch t [] in
-  leaves_after_delete_stmt env ko sch o sem obs Inv dguard ->
+  leaves_after_delete_stmt env fo ko sch o sem obs Inv dguard ->
   leaves_after_set_leaf_stmt env fo ko sch o sem obs Inv sguard ->
   forall t r t' m,
     Inv t -> req_guard dguard sguard r -> obs t = Ok m ->
@@ -170,7 +170,7 @@ Print Assumptions c13_refines_scalar.
 
 (* the same for any observation of the tree (e.g. one that also lists ordered-list leaves) *)
 Theorem c13_refines_scalar_obs : forall env fo ko sch o sem obs Inv dguard sguard,
-  leaves_after_delete_stmt env ko sch o sem obs Inv dguard ->
+  leaves_after_delete_stmt env fo ko sch o sem obs Inv dguard ->
   leaves_after_set_leaf_stmt env fo ko sch o sem obs Inv sguard ->
   forall t r t' m,
     Inv t -> req_guard dguard sguard r -> obs t = Ok m ->
@@ -188,7 +188,7 @@ Print Assumptions c13_refines_scalar_obs.
 Definition c13_inv env fo ko sch (t : tree) : Prop :=
   schema_ok sch /\ enum_env_ok env = true /\ tree_ok env fo ko loose_guard sch t = true.
 Definition c13_delete_premise env fo ko sch : Prop :=
-  leaves_after_delete_stmt env ko sch no_opts (schema_sem env fo ko sch)
+  leaves_after_delete_stmt env fo ko sch no_opts (schema_sem env fo ko sch)
     (fun t => leaves env ko false sch t []) (c13_inv env fo ko sch)
     (fun p => delete_guardb env fo ko sch p = true).
 Definition c13_set_premise env fo ko sch : Prop :=
@@ -215,7 +215,7 @@ Print Assumptions c13_refines_scalar_schema.
 (* atomic notifications at the level of leaves (the shape of GnmiStatements.c13_atomic_replaces_prefix):
    below the prefix only what the updates name remains *)
 Theorem c13_atomic_leaves : forall env fo ko sch o sem obs Inv dguard sguard,
-  leaves_after_delete_stmt env ko sch o sem obs Inv dguard ->
+  leaves_after_delete_stmt env fo ko sch o sem obs Inv dguard ->
   leaves_after_set_leaf_stmt env fo ko sch o sem obs Inv sguard ->
   forall n t t' m l',
     n_atomic n = true -> n_deletes n = [] ->
@@ -243,7 +243,7 @@ Print Assumptions c13_atomic_leaves.
    the ones of SetReqSpec, unchanged.  With c13_inv (tree_ok) in the place of c13_inv2 the premises
    are false on the model: c13_set_premise_refuted / c13_delete_premise_refuted below. *)
 Definition c13_delete_premise2 env fo ko sch : Prop :=
-  leaves_after_delete_stmt env ko sch no_opts (schema_sem env fo ko sch)
+  leaves_after_delete_stmt env fo ko sch no_opts (schema_sem env fo ko sch)
     (fun t => leaves env ko false sch t []) (c13_inv2 env fo ko sch)
     (fun p => delete_guardb env fo ko sch p = true).
 Definition c13_set_premise2 env fo ko sch : Prop :=
@@ -324,7 +324,7 @@ Print Assumptions c13_atomic_leaves_unconditional.
 (* ====================================================================================== *)
 
 Theorem c13_history : forall env fo ko sch o sem obs Inv dguard sguard,
-  leaves_after_delete_stmt env ko sch o sem obs Inv dguard ->
+  leaves_after_delete_stmt env fo ko sch o sem obs Inv dguard ->
   leaves_after_set_leaf_stmt env fo ko sch o sem obs Inv sguard ->
   forall rs t t' m,
     Inv t -> (forall r, In r rs -> req_guard dguard sguard r) -> obs t = Ok m ->
@@ -334,7 +334,7 @@ Proof. exact history_refines. Qed.
 Print Assumptions c13_history.
 
 Theorem c13_history_notifs : forall env fo ko sch o sem obs Inv dguard sguard,
-  leaves_after_delete_stmt env ko sch o sem obs Inv dguard ->
+  leaves_after_delete_stmt env fo ko sch o sem obs Inv dguard ->
   leaves_after_set_leaf_stmt env fo ko sch o sem obs Inv sguard ->
   forall ns t t' m,
     Inv t -> (forall n, In n ns -> req_guard dguard sguard (req_of_notif n)) -> obs t = Ok m ->
@@ -631,7 +631,7 @@ Definition c13_unsorted : tree :=
 Theorem c13_delete_premise_refuted : ~ c13_delete_premise c13_env c13_fo c13_ko c13_sch.
 Proof.
   intros H.
-  destruct (delete_node_st c13_env c13_ko false c13_sch c13_unsorted (elems (c13_if "1" "descr"))) as [t' r] eqn:Ed.
+  destruct (delete_node_st c13_env c13_fo c13_ko false c13_sch c13_unsorted (elems (c13_if "1" "descr"))) as [t' r] eqn:Ed.
   assert (Hr : r = Ok tt) by (vm_compute in Ed; now injection Ed as _ <-). subst r.
   assert (Hm : exists m, leaves c13_env c13_ko false c13_sch c13_unsorted [] = Ok m) by (vm_compute; eauto).
   destruct Hm as (m & Hm).
